@@ -207,6 +207,113 @@ fn c02_payloads(args: &Args, report: &mut Report, rng: &mut Rng) {
     }
 }
 
+/// The batcher sits above the hooked send: the order in which a replica's last operator emitted
+/// the elements (probe right before the end of the block) must be preserved on every link.
+fn c02_batcher(args: &Args, report: &mut Report, rng: &mut Rng) {
+    let cases = if args.thorough { 60 } else { 6 };
+    for case in 0..cases {
+        let layout = rng.pick(&[Layout::Local(2), Layout::Local(4), Layout::Remote(vec![2, 2]), Layout::Remote(vec![1, 3])]).clone();
+        let n = rng.usize(20, 120) as u64;
+        let delay_ms = rng.below(3) + 1;
+        let batch = match rng.below(3) {
+            0 => renoir::BatchMode::adaptive(1024, std::time::Duration::from_millis(delay_ms)),
+            1 => renoir::BatchMode::adaptive(rng.usize(3, 30), std::time::Duration::from_millis(delay_ms)),
+            _ => renoir::BatchMode::fixed(rng.usize(2, 9)),
+        };
+        let conn = rng.below(4);
+        let burst = rng.below(4) + 2;
+        let pause_us = delay_ms * 1000 * (rng.below(3) + 2);
+        let data: Arc<Vec<Rec>> = Arc::new((0..n).map(|i| Rec { id: i + 1, k: (i % 7) as u32, v: i as i64 }).collect());
+        let traces = TraceSink::new();
+        let (d2, tr) = (data.clone(), traces.clone());
+        let res = run_job(
+            &layout,
+            RunOpts { log_links: true, ..Default::default() },
+            move |ctx, _| {
+                let d = d2.clone();
+                let s = ctx
+                    .stream_par_iter(move |i: u64, n: u64| {
+                        let d = d.clone();
+                        (0..d.len()).filter(move |j| (*j as u64) % n == i).map(move |j| d[j].clone())
+                    })
+                    .batch_mode(batch)
+                    // bursts of fast elements followed by a pause longer than the batch delay
+                    .map(move |r: Rec| {
+                        if r.id % burst == 0 {
+                            std::thread::sleep(std::time::Duration::from_micros(pause_us));
+                        }
+                        r
+                    })
+                    .probed(RecProbe::new(1, "before-end", &tr));
+                match conn {
+                    0 => s.shuffle().for_each(|_| {}),
+                    1 => s.group_by(|r: &Rec| r.k).for_each(|_| {}),
+                    2 => s.replication(renoir::Replication::One).for_each(|_| {}),
+                    _ => s.broadcast().for_each(|_| {}),
+                }
+            },
+            |_, _| (),
+        );
+        let h = mix(n ^ (burst << 20) ^ (pause_us << 30), hash_str(&format!("{}{batch:?}{conn}", layout.name())));
+        let detail = |err: Option<String>| json!({"engine":"linkmon.batcher","case":case,"layout":layout.name(),"batch":format!("{batch:?}"),"connection":conn,
+            "elements":n,"burst":burst,"pause_us":pause_us,"error":err});
+        if !res.all_ok() {
+            report.case(Verdict::Inconclusive, None, || detail(Some(format!("job failed: {:?}", res.panic_messages()))));
+            continue;
+        }
+        let (sent, _) = per_link(&res.log);
+        let mut errs = Vec::new();
+        let mut compared = 0u64;
+        for t in traces.take() {
+            let order: HashMap<u64, usize> = t
+                .evs
+                .iter()
+                .filter(|e| e.kind == crate::probe::K_ITEM || e.kind == crate::probe::K_TS)
+                .enumerate()
+                .map(|(i, e)| (payload_hash(&Rec { id: e.d[0], k: e.d[1] as u32, v: e.d[2] as i64 }), i))
+                .collect();
+            for ((from, to), (_, elems, _)) in &sent {
+                if *from != t.ctx.coord {
+                    continue;
+                }
+                let mut last: Option<usize> = None;
+                let mut seen_far = false;
+                for d in elems {
+                    match d.kind {
+                        KIND_ITEM | KIND_TIMESTAMPED => {
+                            compared += 1;
+                            if seen_far {
+                                errs.push(format!("link {from:?} -> {to:?}: a data element travels after the FlushAndRestart of its iteration"));
+                            }
+                            match order.get(&d.hash) {
+                                None => errs.push(format!("link {from:?} -> {to:?}: an element that the producer never emitted")),
+                                Some(pos) => {
+                                    if last.map_or(false, |l| *pos < l) {
+                                        errs.push(format!("link {from:?} -> {to:?}: the element emitted at position {pos} by the producer travels after the one emitted at position {}", last.unwrap()));
+                                    }
+                                    last = Some(*pos);
+                                }
+                            }
+                        }
+                        KIND_FLUSH_AND_RESTART => seen_far = true,
+                        _ => {}
+                    }
+                }
+                if elems.last().map(|d| d.kind) != Some(KIND_TERMINATE) {
+                    errs.push(format!("link {from:?} -> {to:?}: Terminate is not the last element"));
+                }
+            }
+        }
+        report.count("batcher_jobs", 1);
+        report.count("batcher_elements_order_checked", compared);
+        if errs.is_empty() {
+            report.case(Verdict::Held, (compared > 5).then_some(h), || detail(None));
+        } else {
+            report.case(Verdict::Violated, Some(h), || detail(Some(errs.iter().take(3).cloned().collect::<Vec<_>>().join(" || "))));
+        }
+    }
+}
+
 pub fn run_c02(args: &Args, report: &mut Report) {
     let mut rng = Rng::new(args.seed).fork(0xC02).fork(args.shard);
     if args.sub.is_none() || args.sub.as_deref() == Some("jobgen") {
@@ -214,6 +321,9 @@ pub fn run_c02(args: &Args, report: &mut Report) {
     }
     if args.sub.is_none() || args.sub.as_deref() == Some("payloads") {
         c02_payloads(args, report, &mut rng);
+    }
+    if args.sub.is_none() || args.sub.as_deref() == Some("batcher") {
+        c02_batcher(args, report, &mut rng);
     }
 }
 
@@ -310,6 +420,8 @@ struct EdgeRule {
     kind: Conn,
     /// how many copies of every element travel on this edge in total
     mult: u64,
+    /// false when the producer pre-aggregates (two-phase group-by): only routing is checked
+    conserve: bool,
 }
 
 #[allow(clippy::too_many_arguments)]
@@ -391,13 +503,16 @@ fn check_edge(
             }
         }
         let per_elem = if rule.kind == Conn::Broadcast { consumers.len() as u64 } else { 1 };
-        for (h, c) in &seen {
+        for (h, c) in seen.iter().filter(|_| rule.conserve) {
             // a producer holds each element at most once per upstream copy; with `mult` copies
             // in total a single producer may hold several of them only after a broadcast
             if *c % per_elem != 0 || (rule.mult == 1 && *c != per_elem) {
                 errs.push(format!("edge b{from_block}->b{to_block} ({:?}): producer {p:?} sent element {:?} {c} times (expected {per_elem} per copy)", rule.kind, by_hash.get(h).map(|r| r.id)));
             }
         }
+    }
+    if !rule.conserve {
+        return;
     }
     // conservation on the edge: every input element travels `mult` (x consumers for broadcast) times
     let factor = rule.mult * if rule.kind == Conn::Broadcast { consumers.len() as u64 } else { 1 };
@@ -418,6 +533,9 @@ fn c03_case(args: &Args, report: &mut Report, rng: &mut Rng, case: u64) {
     let max_n = if args.thorough { 3000 } else { 600 };
     let a = gen_chain(rng, max_n);
     let join = rng.chance(1, 3);
+    // keyed join of a stream partitioned by group_by with one partitioned by the two-phase
+    // group_by_reduce: equal keys of both inputs must live on the same replica
+    let mixed = join && rng.chance(1, 2);
     let split = !join && rng.chance(1, 4);
     let b = gen_chain(rng, max_n);
     let layout = match rng.below(10) {
@@ -455,7 +573,12 @@ fn c03_case(args: &Args, report: &mut Report, rng: &mut Rng, case: u64) {
                 s
             };
             let sa = build(&a2, da2.clone(), 100);
-            if join {
+            if mixed {
+                let sb = build(&b2, db2.clone(), 200);
+                let ka = sa.group_by(|r: &Rec| r.k).unkey().probed(RecProbe::<(u32, Rec)>::new(310, "mixed-left", &tr2)).to_keyed();
+                let kb = sb.group_by_reduce(|r: &Rec| r.k, |_a, _b| {}).unkey().probed(RecProbe::<(u32, Rec)>::new(311, "mixed-right", &tr2)).to_keyed();
+                ka.join(kb).unkey().for_each(|_| {});
+            } else if join {
                 let sb = build(&b2, db2.clone(), 200);
                 sa.join(sb, |r: &Rec| r.k, |r: &Rec| r.k).unkey().map(|(_, (l, _))| l).probed(RecProbe::new(300, "join", &tr2)).for_each(|_| {});
             } else if split {
@@ -470,7 +593,7 @@ fn c03_case(args: &Args, report: &mut Report, rng: &mut Rng, case: u64) {
         |_, _| (),
     );
     let desc = json!({"engine":"linkmon.routing","case":case,"shard":args.shard,"seed":args.seed,"layout":layout.name(),"batch":format!("{batch:?}"),"policy":pname,
-        "chain_a":format!("{a:?}"),"chain_b": if join {json!(format!("{b:?}"))} else {json!(null)},"join":join,"split":split});
+        "chain_a":format!("{a:?}"),"chain_b": if join {json!(format!("{b:?}"))} else {json!(null)},"join":join,"mixed_partitioning_join":mixed,"split":split});
     let h = mix(hash_str(&format!("{a:?}{b:?}{join}{split}")), hash_str(&format!("{}{batch:?}", layout.name())));
     if !res.all_ok() {
         let mut d = desc.clone();
@@ -501,7 +624,7 @@ fn c03_case(args: &Args, report: &mut Report, rng: &mut Rng, case: u64) {
             if fb == tb {
                 continue; // replication(Unlimited) on an unlimited block creates a new block anyway; defensive
             }
-            check_edge(fb, tb, &EdgeRule { kind: *conn, mult }, &sent, &by_hash, &cons, d.len(), key_home, errs, &mut stats);
+            check_edge(fb, tb, &EdgeRule { kind: *conn, mult, conserve: true }, &sent, &by_hash, &cons, d.len(), key_home, errs, &mut stats);
             report.seen("edge_cells", format!("{:?} {}->{}", match conn { Conn::Forward(_) => "Forward".to_string(), c => format!("{c:?}") }, replicas.get(&fb).map(|r| r.len()).unwrap_or(0), cons.len()));
             edges_checked += 1;
             if *conn == Conn::Broadcast {
@@ -512,15 +635,38 @@ fn c03_case(args: &Args, report: &mut Report, rng: &mut Rng, case: u64) {
         (last_block, mult)
     };
     let (last_a, mult_a) = check_chain(&a, &da, 100, &mut errs, &mut key_home);
-    if join {
+    if mixed {
+        let (last_b, mult_b) = check_chain(&b, &db, 200, &mut errs, &mut key_home);
+        if let (Some(&xb), Some(&yb)) = (block_of.get(&310), block_of.get(&311)) {
+            let ha: HashMap<u64, &Rec> = da.iter().map(|r| (payload_hash(r), r)).collect();
+            // the two-phase form ships (key, Some(one of the producer's elements of that key))
+            let hb: HashMap<u64, &Rec> = db.iter().map(|r| (payload_hash(&(r.k, Some(r.clone()))), r)).collect();
+            let cx = replicas.get(&xb).cloned().unwrap_or_default();
+            let cy = replicas.get(&yb).cloned().unwrap_or_default();
+            check_edge(last_a, xb, &EdgeRule { kind: Conn::GroupBy, mult: mult_a, conserve: true }, &sent, &ha, &cx, da.len(), &mut key_home, &mut errs, &mut stats);
+            check_edge(last_b, yb, &EdgeRule { kind: Conn::GroupBy, mult: mult_b, conserve: false }, &sent, &hb, &cy, db.len(), &mut key_home, &mut errs, &mut stats);
+            edges_checked += 2;
+            let mut compared = 0;
+            for ((blk, k), home) in key_home.iter().filter(|((b, _), _)| *b == xb) {
+                let _ = blk;
+                if let Some(other) = key_home.get(&(yb, *k)) {
+                    compared += 1;
+                    if (home.1, home.2) != (other.1, other.2) {
+                        errs.push(format!("key {k}: the group_by input of the keyed join puts it on replica (host {}, replica {}), the group_by_reduce input on (host {}, replica {}): equal keys of the two inputs do not meet", home.1, home.2, other.1, other.2));
+                    }
+                }
+            }
+            *stats.entry("mixed_partitioning_keys_compared").or_default() += compared;
+        }
+    } else if join {
         let (last_b, mult_b) = check_chain(&b, &db, 200, &mut errs, &mut key_home);
         if let Some(&jb) = block_of.get(&300) {
             let cons = replicas.get(&jb).cloned().unwrap_or_default();
             let ha: HashMap<u64, &Rec> = da.iter().map(|r| (payload_hash(r), r)).collect();
             let hb: HashMap<u64, &Rec> = db.iter().map(|r| (payload_hash(r), r)).collect();
             // both sides are group-by edges into the same block: the key -> replica map is shared
-            check_edge(last_a, jb, &EdgeRule { kind: Conn::GroupBy, mult: mult_a }, &sent, &ha, &cons, da.len(), &mut key_home, &mut errs, &mut stats);
-            check_edge(last_b, jb, &EdgeRule { kind: Conn::GroupBy, mult: mult_b }, &sent, &hb, &cons, db.len(), &mut key_home, &mut errs, &mut stats);
+            check_edge(last_a, jb, &EdgeRule { kind: Conn::GroupBy, mult: mult_a, conserve: true }, &sent, &ha, &cons, da.len(), &mut key_home, &mut errs, &mut stats);
+            check_edge(last_b, jb, &EdgeRule { kind: Conn::GroupBy, mult: mult_b, conserve: true }, &sent, &hb, &cons, db.len(), &mut key_home, &mut errs, &mut stats);
             edges_checked += 2;
             *stats.entry("join_colocation_checks").or_default() += 1;
         }
@@ -533,7 +679,7 @@ fn c03_case(args: &Args, report: &mut Report, rng: &mut Rng, case: u64) {
                 let feeders: BTreeSet<u64> = sent.keys().filter(|(_, to)| to.0 .0 == tb).map(|(f, _)| f.0).collect();
                 for fb in feeders {
                     let cons = replicas.get(&tb).cloned().unwrap_or_default();
-                    check_edge(fb, tb, &EdgeRule { kind, mult: mult_a }, &sent, &ha, &cons, da.len(), &mut key_home, &mut errs, &mut stats);
+                    check_edge(fb, tb, &EdgeRule { kind, mult: mult_a, conserve: true }, &sent, &ha, &cons, da.len(), &mut key_home, &mut errs, &mut stats);
                     edges_checked += 1;
                 }
             }
@@ -544,7 +690,7 @@ fn c03_case(args: &Args, report: &mut Report, rng: &mut Rng, case: u64) {
         for tb in branch_targets {
             let cons: BTreeSet<C3> = sent.keys().filter(|(f, to)| f.0 == last_a && to.0 .0 == tb).map(|(_, to)| to.0).collect();
             let rep_a = match a.conns.last() { Some(Conn::Forward(r)) => *r, _ => Rep::Unlimited };
-            check_edge(last_a, tb, &EdgeRule { kind: Conn::Forward(rep_a), mult: mult_a }, &sent, &ha, &cons, da.len(), &mut key_home, &mut errs, &mut stats);
+            check_edge(last_a, tb, &EdgeRule { kind: Conn::Forward(rep_a), mult: mult_a, conserve: true }, &sent, &ha, &cons, da.len(), &mut key_home, &mut errs, &mut stats);
             edges_checked += 1;
         }
     }
